@@ -188,7 +188,10 @@ def check_c05(ctx):
                           'realised tag-compatible type, re-serialized and compared; every truncation point is tried under ASan')
 
 
-C06_THEOREMS = []
+C06_THEOREMS = ['BinlogVerif.C06.c06_tag_first_size', 'BinlogVerif.C06.c06_tag_pop', 'BinlogVerif.C06.c06_split_args',
+                'BinlogVerif.C06.c06_visit_agrees', 'BinlogVerif.C06.c06_visit_top', "BinlogVerif.C06.c06_visit_top'",
+                'BinlogVerif.C06.c06_singular', 'BinlogVerif.C06.c06_singular_encode', 'BinlogVerif.C06.c06_singular_events_const',
+                'BinlogVerif.C06.c06_consumes_exactly', 'BinlogVerif.C06.c06_emptyStructsOk_of_names']
 
 
 def monitor_c06(c, ikv, mkv):
@@ -208,4 +211,22 @@ def check_c06(ctx):
     return run_mser_check(ctx, 'BinlogVerif.Props.C06', C06_THEOREMS, ['tag', 'bytes', 'events', 'visitrest'], monitor_c06, RULE)
 
 
-CHECKS = {'C04': check_c04, 'C05': check_c05, 'C06': check_c06}
+C07_THEOREMS = ['BinlogVerif.C07.c07_render_refines', 'BinlogVerif.C07.c07_render_top', "BinlogVerif.C07.c07_render_top'",
+                'BinlogVerif.C07.c07_render_append', 'BinlogVerif.C07.c07_singular_render_const']
+
+
+def monitor_c07(c, ikv, mkv):
+    # the text the real ToStringVisitor prints must be the documented rendering (`render`, written from the docs)
+    if 'D' in GT.py_tag(c['ty']) and c['ty'] != ('A', 'D'):
+        return None
+    if ikv.get('text') != mkv.get('render'):
+        return 'printed text differs from the documented rendering: got %r, documented %r' % (
+            bytes.fromhex(ikv.get('text', '')).decode('latin1')[:200], bytes.fromhex(mkv.get('render', '')).decode('latin1')[:200])
+    return None
+
+
+def check_c07(ctx):
+    return run_mser_check(ctx, 'BinlogVerif.Props.C07', C07_THEOREMS, ['tag', 'bytes', 'text'], monitor_c07, RULE)
+
+
+CHECKS = {'C04': check_c04, 'C05': check_c05, 'C06': check_c06, 'C07': check_c07}
